@@ -29,13 +29,62 @@ def progs_str(case):
     return ' / '.join(' '.join(p) for p in case['progs'])
 
 
-def model_line(case, steps, variant='00'):
+# ---------------------------------------------------------------------------------------------
+# which code shape is under test (selects the model variant the driver is run with)
+
+_VARIANT = None
+_VARIANT_EVIDENCE = {}
+
+
+def _held_during(steps, tid, kind):
+    """is every `kind` step of thread `tid` executed between an `acq` and the following `rel` of that thread?"""
+    held, seen, inside = False, False, True
+    for t, k in steps:
+        if t != tid:
+            continue
+        if k == 'acq':
+            held = True
+        elif k == 'rel':
+            held = False
+        elif k == kind:
+            seen = True
+            inside = inside and held
+    return seen and inside
+
+
+def detect_variant():
+    """Observed, not assumed: single-threaded probe runs on the real code under the scheduler.
+         bit 0  compressUnderLock: in a compressed `send_text` the accesses to the shared zlib object
+                (`compress`, `flush`) happen while the thread holds the write lock
+         bit 1  closeAtomic: `close()` stores `closing = True` while it still holds the write lock AND the
+                reply path stores `closed = True` / `closing = False` under the lock
+       (the source shape is irrelevant; whatever refactoring produced it, the step log decides).
+       The model variant only selects which compiled programs the correspondence compares against: a
+       wrong guess shows up as model/real disagreements, never as a hidden failure."""
+    global _VARIANT
+    if _VARIANT is not None:
+        return _VARIANT
+    m = 'a' * 40
+    r = sched.run_real(dict(z=1, progs=[['st1=' + m.encode().hex()]], schedule=[], mode='sync'))
+    cu = _held_during(r['steps'], 0, 'z:compress') and _held_during(r['steps'], 0, 'z:flush')
+    r2 = sched.run_real(dict(z=0, progs=[['cl=1000,'], ['rc=1000,']], schedule=[0] * 40 + [1] * 60, mode='sync'))
+    ca = (_held_during(r2['steps'], 0, 'wr:closing=1') and _held_during(r2['steps'], 1, 'wr:closed=1')
+          and _held_during(r2['steps'], 1, 'wr:closing=0'))
+    _VARIANT = ('1' if cu else '0') + ('1' if ca else '0')
+    _VARIANT_EVIDENCE.update(compress_probe=' '.join('%d:%s' % s for s in r['steps']),
+                             close_probe=' '.join('%d:%s' % s for s in r2['steps']))
+    return _VARIANT
+
+
+def model_line(case, steps, variant=None):
     """the model is run on the schedule that was effectively executed (one entry per sync step,
     `blocked` no-ops included)"""
+    variant = variant or detect_variant()
     return 'threads v=%s z=%d | %s | %s' % (variant, case['z'], progs_str(case), ''.join(str(t) for t, _ in steps))
 
 
-def enum_line(case, pb=None, variant='00'):
+def enum_line(case, pb=None, variant=None):
+    variant = variant or detect_variant()
     return 'threads-enum v=%s z=%d pb=%s | %s' % (variant, case['z'], '-' if pb is None else pb, progs_str(case))
 
 
@@ -391,6 +440,11 @@ def enumerate_cases(base_cases, model_ok, rng, cap=None):
 
 def run_and_compare(res, cases, judge, model_ok):
     """run every case on the real code and on the model; record diffs and oracle failures"""
+    v = detect_variant()
+    res.count('model_variant_' + v)
+    note = ('code shape observed by the probe runs: compressUnderLock=%s closeAtomic=%s (model driven with v=%s)' % (v[0], v[1], v))
+    if note not in res.notes:
+        res.notes.append(note)
     reals = runner.parallel_map('thrutil', 'real_case', cases, chunk=25)
     lines, idx = [], []
     for k, (c, r) in enumerate(zip(cases, reals)):
